@@ -268,6 +268,72 @@ async def agen_link(b, i):
         raise
 
 
+# ---- C16: an elaborate_frame hook that splices a custom item (holding a parked generator's frame) into a chain
+class FrameBox:
+    def __init__(self, frame):
+        self.frame = frame
+
+
+@stackscope.unwrap_stackitem.register(FrameBox)
+def _unwrap_box(box):
+    return [box.frame]
+
+
+def _parked():
+    yield "parked"
+
+
+SPLICE = {"mode": None, "builder": None, "box": None}
+
+
+@stackscope.elaborate_frame.register(coro_link)
+def _splice_hook(frame, next_inner):
+    b = SPLICE["builder"]
+    if SPLICE["mode"] is None or b is None or frame.pyframe is not getattr(b.objs.get(1), "cr_frame", None):
+        return None
+    if SPLICE["mode"] == "insert":
+        return (SPLICE["box"], next_inner)
+    return (SPLICE["box"],)
+
+
+def check_splice(b, x, rec, exp):
+    """origin contract when a hook splices a non-generator item into a suspended chain"""
+    c16, traces = [], []
+    pg = _parked()
+    next(pg)
+    SPLICE["box"] = FrameBox(pg.gi_frame)
+    SPLICE["builder"] = b
+    try:
+        for mode in ("insert", "replace"):
+            SPLICE["mode"] = mode
+            rec.take()
+            with warnings.catch_warnings(record=True):
+                warnings.simplefilter("always")
+                st = stackscope.extract(x)
+            runs = rec.take()
+            SPLICE["mode"] = None
+            names = [fr.funcname for fr in st.frames]
+            want = [code_name(b.k(exp[0])), "_parked"] + ([code_name(b.k(i)) for i in exp[1:]] if mode == "insert" else [])
+            if names != want:
+                c16.append("splice/%s: frames %s, expected %s" % (mode, names, want))
+            for idx, fr in enumerate(st.frames):
+                if fr.origin is None:
+                    continue
+                try:
+                    om = stackscope.extract_outermost(fr.origin)
+                    if om.pyframe is not fr.pyframe:
+                        c16.append("splice/%s: frame %d (%s): extract_outermost(origin).pyframe is another frame" % (mode, idx, fr.funcname))
+                except Exception as ex:
+                    c16.append("splice/%s: frame %d: origin contract raised %r" % (mode, idx, ex))
+            rec.take()
+            traces += [r.to_json() for r in runs if not r.unbindable]
+    finally:
+        SPLICE["mode"] = None
+        SPLICE["builder"] = None
+        pg.close()
+    return c16, traces
+
+
 CODE_OF = {"coro": coro_link.__code__, "gcoro": gcoro_link.__wrapped__.__code__ if hasattr(gcoro_link, "__wrapped__") else None,
            "gen": gen_link.__code__, "agen": agen_link.__code__}
 
@@ -356,6 +422,10 @@ def run_chain(case, rec):
     except Exception as ex:
         c16.append("extract_outermost raised %r" % (ex,))
     rec.take()
+    splice_traces = []
+    if b.k(1) == "coro" and term != "done" and exp:
+        c16x, splice_traces = check_splice(b, x, rec, exp)
+        c16.extend(c16x)
     # (b) the path an exception takes
     frames_before = [(f.pyframe, f.lineno) for f in st.frames]
     del st, st2
@@ -394,7 +464,7 @@ def run_chain(case, rec):
         if r.unbindable:
             continue
         traces.append(r.to_json())
-    return {"bad": bad, "c16": c16, "traces": traces, "nframes": len(frames_before)}
+    return {"bad": bad, "c16": c16, "traces": traces, "c16_traces": splice_traces, "nframes": len(frames_before)}
 
 
 def run_running(case, b):
